@@ -47,7 +47,7 @@ fn css_unescape(s: &str) -> Option<String> {
 fn c17_escaped_keys_equal_css_unescaping() {
     let pieces = [
         "ad", "-", "_", "é", "\\:", "\\31 ", "\\.", "😀", "\\000041", "9", "\\41 ", "\\41", "\\e9 ", "B", "\\\\", "\\ ", "\\5f",
-        "\\1F600", "\\g", "\\41\t",
+        "\\1F600", "\\g", "\\41\t", "\\000041 ", "\\00005f\t",
     ];
     let tails = ["", " > div", ".b", "[x]", ":hover", "\\>x", " .c"];
     let thorough = std::env::var("VF_TIER").map(|t| t == "thorough").unwrap_or(false);
